@@ -89,17 +89,18 @@ def run(tier):
         eff = PathEffects(prog)
         for g in ('equil', 'scale'):
             chk.clause('C15.' + g, 'R3 oracle group `%s` of ?gsisx' % g)
+        chk.clause('C15.iluguard', 'R3 oracle group: what runs after ?gsitrf for each outcome')
         chk.clause('C15.mc64', 'R3 MC64 path of ?gsisx (D1, D2)')
         chk.clause('C15.tail', 'loop and tail rules of ?gsitrf')
         r11_kinds.run(chk, 'C15.kinds', prog, cfgname, floor=1900)
         nl = 0
         for p in _drv.PRECS:
-            f, fl, leaves = _gssvx.leaves_for(prog, eff, p, ilu=True, tier=tier, split=('Fact', 'Trans', 'Equil', 'A.Stype', 'equed', 'info', 'RowPerm'),
+            f, fl, leaves = _gssvx.leaves_for(prog, eff, p, ilu=True, tier=tier, split=('Fact', 'Trans', 'Equil', 'A.Stype', 'equed', 'info', 'RowPerm', 'PivotGrowth'),
                                               lwork_values=(0,), fact_values=None if tier == 'thorough' else ('DOFACT', 'SamePattern_SameRowPerm', 'FACTORED'))
             if f is None:
                 raise AnalysisBroken('C15: %sgsisx not found' % p)
             ctx = _expert.Ctx(prog, f, fl, p, True)
-            _expert.run_leaf_groups(chk, 'C15', ctx, leaves, ('equil', 'scale'), cfgname)
+            _expert.run_leaf_groups(chk, 'C15', ctx, leaves, ('equil', 'scale', 'iluguard'), cfgname)
             mc64_group(chk, 'C15.mc64', ctx, leaves, cfgname)
             nl += len(leaves)
             factor_tail.run(chk, 'C15.tail', prog, p, cfgname, ilu=True)
